@@ -204,13 +204,18 @@ func (s *streamWriter) init() {
 // instead of sending the event itself?
 func (s *streamWriter) Shutdown() {
 	evt := actor.RemoteUnreachableEvent{ListenAddr: s.writeToAddr}
-	s.engine.Send(s.routerPID, evt)
-	s.engine.BroadcastEvent(evt)
 	if s.stream != nil {
 		s.stream.Close()
 	}
 	s.inbox.Stop()
 	s.engine.Registry.Remove(s.PID())
+	// The router is told only once this writer is unregistered. Told earlier,
+	// it could drop its route and, on the next message for this address, spawn
+	// a new writer while this one still held the ID: the new writer would be
+	// refused as a duplicate and never started, and the address would stay
+	// unreachable for good.
+	s.engine.Send(s.routerPID, evt)
+	s.engine.BroadcastEvent(evt)
 }
 
 func (s *streamWriter) Start() {
